@@ -256,3 +256,92 @@ Proof.
   intros t. unfold tape_wfb, tape_wf. rewrite andb_true_iff, all_okb_spec.
   cbn [Nat.add]. rewrite tok_okb_spec. tauto.
 Qed.
+
+(* ---------- the stack checker and the grammar define the same tapes ---------- *)
+Lemma nest_decomp : forall n t l pos stk, length l <= n ->
+  (forall k y, nth_error l k = Some y -> nth_error t (pos + k) = Some y) ->
+  links_back t -> no_zero t ->
+  nest_ok l pos stk = true ->
+  exists V rest, l = V ++ rest /\ closed pos V /\
+    match stk with
+    | [] => rest = []
+    | top :: stk' => exists rest', rest = TEnd top :: rest' /\
+                                   nest_ok rest' (pos + length V + 1) stk' = true
+    end.
+Proof.
+  induction n as [|n IH]; intros t l pos stk Ln Seg LB NZ H.
+  - destruct l; [|cbn in Ln; lia]. cbn in H. destruct stk; [|discriminate].
+    exists [], []. repeat split. apply cl_nil.
+  - destruct l as [|x r].
+    { cbn in H. destruct stk; [|discriminate]. exists [], []. repeat split. apply cl_nil. }
+    cbn [length] in Ln.
+    assert (Seg' : forall k y, nth_error r k = Some y -> nth_error t (S pos + k) = Some y).
+    { intros k y Hk. replace (S pos + k) with (pos + S k) by lia. apply Seg. exact Hk. }
+    assert (Plain : plainb x = true -> nest_ok r (S pos) stk = true ->
+      exists V rest, x :: r = V ++ rest /\ closed pos V /\
+        match stk with
+        | [] => rest = []
+        | top :: stk' => exists rest', rest = TEnd top :: rest' /\
+                                       nest_ok rest' (pos + length V + 1) stk' = true
+        end).
+    { intros Px Hr.
+      destruct (IH t r (S pos) stk ltac:(lia) Seg' LB NZ Hr) as (V & rest & -> & CV & M).
+      exists (x :: V), rest. split; [reflexivity|]. split; [apply cl_plain; assumption|].
+      destruct stk as [|top stk']; [exact M|].
+      destruct M as (rest' & -> & M). exists rest'. split; [reflexivity|].
+      cbn [length]. replace (pos + S (length V) + 1) with (S pos + length V + 1) by lia. exact M. }
+    assert (Cont : forall e, cont_end x = Some e -> nest_ok r (S pos) (pos :: stk) = true ->
+      exists V rest, x :: r = V ++ rest /\ closed pos V /\
+        match stk with
+        | [] => rest = []
+        | top :: stk' => exists rest', rest = TEnd top :: rest' /\
+                                       nest_ok rest' (pos + length V + 1) stk' = true
+        end).
+    { intros e He Hr.
+      destruct (IH t r (S pos) (pos :: stk) ltac:(lia) Seg' LB NZ Hr) as (body & rest0 & -> & CB & rest1 & -> & M1).
+      assert (L1 : length rest1 <= n).
+      { rewrite app_length in Ln. cbn [length] in Ln. lia. }
+      assert (Seg1 : forall k y, nth_error rest1 k = Some y ->
+                nth_error t (S pos + length body + 1 + k) = Some y).
+      { intros k y Hk. replace (S pos + length body + 1 + k) with (S pos + (length body + 1 + k)) by lia.
+        apply Seg'. rewrite nth_error_mid.
+        destruct (Nat.ltb_spec (length body + 1 + k) (length body)); [lia|].
+        destruct (Nat.eqb_spec (length body + 1 + k) (length body)); [lia|].
+        replace (length body + 1 + k - S (length body)) with k by lia. exact Hk. }
+      destruct (IH t rest1 (S pos + length body + 1) stk L1 Seg1 LB NZ M1) as (V2 & rest2 & -> & CV2 & M2).
+      assert (HEnd : nth_error t (pos + 1 + length body) = Some (TEnd pos)).
+      { replace (pos + 1 + length body) with (S pos + length body) by lia. apply Seg'.
+        rewrite nth_error_mid, Nat.ltb_irrefl, Nat.eqb_refl. reflexivity. }
+      assert (Hx : nth_error t pos = Some x).
+      { replace pos with (pos + 0) at 1 by lia. apply Seg. reflexivity. }
+      exists (x :: body ++ TEnd pos :: V2), rest2. split.
+      { cbn [app]. rewrite <- app_assoc. reflexivity. }
+      split.
+      { apply cl_cont.
+        - destruct (NZ _ _ HEnd) as [_ Z]. intros ->. apply Z. reflexivity.
+        - destruct (LB _ _ HEnd) as (x' & Hx' & He'). congruence.
+        - exact CB.
+        - replace (pos + 2 + length body) with (S pos + length body + 1) by lia. exact CV2. }
+      destruct stk as [|top stk']; [exact M2|].
+      destruct M2 as (rest' & -> & M2). exists rest'. split; [reflexivity|].
+      cbn [length]. rewrite app_length. cbn [length].
+      replace (pos + S (length body + S (length V2)) + 1) with (S pos + length body + 1 + length V2 + 1) by lia.
+      exact M2. }
+    destruct x; try (apply Plain; [reflexivity|exact H]).
+    + eapply Cont; [reflexivity|exact H].
+    + eapply Cont; [reflexivity|exact H].
+    + cbn [nest_ok] in H. destruct stk as [|top stk']; [discriminate|].
+      apply andb_true_iff in H. destruct H as [E H]. apply Nat.eqb_eq in E. subst i.
+      exists [], (TEnd top :: r). split; [reflexivity|]. split; [apply cl_nil|].
+      exists r. split; [reflexivity|]. cbn [length]. replace (pos + 0 + 1) with (S pos) by lia. exact H.
+Qed.
+
+Theorem tape_wf_closed : forall t, tape_wf t -> closed 0 t.
+Proof.
+  intros t (F & B & N & Z).
+  destruct (nest_decomp (length t) t t 0 [] (le_n _) ltac:(intros k y Hk; exact Hk) B Z N) as (V & rest & -> & C & ->).
+  rewrite app_nil_r. exact C.
+Qed.
+
+Theorem tape_wf_iff_closed : forall t, tape_wf t <-> closed 0 t.
+Proof. intros t. split; [apply tape_wf_closed|apply closed_tape_wf]. Qed.
